@@ -3,8 +3,8 @@ package wire
 import (
 	"encoding/json"
 	"fmt"
+	"reflect"
 	"strconv"
-	"strings"
 
 	"github.com/theory/sqljson/path/ast"
 )
@@ -542,45 +542,14 @@ func isNilNode(n ast.Node) bool {
 	return fmt.Sprintf("%p", n) == "0x0" || fmt.Sprintf("%v", any(n) == nil) == "true"
 }
 
-// regexParts recovers pattern and flags from the node's printed form
-// (`<operand> like_regex "pattern" flag "ismxq"`); RegexNode exports no
-// accessor for them.
+// regexParts reads pattern and flags of a RegexNode. The node exports no
+// accessor for them (and its String() also prints the chain that follows),
+// so the unexported fields are read by reflection.
 func regexParts(n *ast.RegexNode) (string, Flags) {
-	s := n.String()
-	var fl Flags
-	i := strings.LastIndex(s, " like_regex ")
-	rest := s[i+len(" like_regex "):]
-	// rest = "pattern"[ flag "..."]
-	pat, tail := unquotePrefix(rest)
-	if j := strings.Index(tail, `flag "`); j >= 0 {
-		for _, c := range tail[j+6:] {
-			switch c {
-			case 'i':
-				fl.I = true
-			case 's':
-				fl.S = true
-			case 'm':
-				fl.M = true
-			case 'x':
-				fl.X = true
-			case 'q':
-				fl.Q = true
-			}
-		}
-	}
-	return pat, fl
-}
-
-func unquotePrefix(s string) (string, string) {
-	q, err := strconv.QuotedPrefix(s)
-	if err != nil {
-		return "", s
-	}
-	u, err := strconv.Unquote(q)
-	if err != nil {
-		return "", s
-	}
-	return u, s[len(q):]
+	v := reflect.ValueOf(n).Elem()
+	pat := v.FieldByName("pattern").String()
+	bits := v.FieldByName("flags").Uint()
+	return pat, Flags{I: bits&1 != 0, S: bits&2 != 0, M: bits&4 != 0, X: bits&8 != 0, Q: bits&16 != 0}
 }
 
 // FromAST converts a parsed path.
